@@ -43,10 +43,33 @@ def main():
     write("C01", "kept-results-and-second-instance-SIR-symbolic-magnitude",
           {"spec": spec, "meta": meta, "points": PTS, "backend": "lambda", "malformed": None, "probe": probe,
            "note": "reproduces seeded C01-b2 (kept:rates+vmat), C03-b1/C02-b2 (sibling: parameter order permuted), C12-b1/C08-b1 (sibling:staged)"})
+    # C01: genuine defect C03-integer-dtype-state-overflow seen through ode / eventRateVector (beta*S*I as int32 at S*I > 2**31)
+    write("C01", "integer-dtype-state-overflow-SIR-int32-population",
+          {"spec": spec, "meta": meta, "points": PTS, "backend": "lambda", "malformed": None,
+           "probe": {"big": {"point": dict(PTS[0], S="100000", I="50000", R="30000", t="1"), "x": "ndarray_int32"}, "forms": FORMS, "reassign_form": "list", "sibling": None},
+           "note": "ode(x,t) of an SIR model for S=1e5, I=5e4 given as an int32 array: beta*S*I wraps around"})
     # C03: the same model, events in the constructor (declared order), three points
     write("C03", "kept-results-and-second-instance-SIR-symbolic-magnitude",
           {"spec": spec, "meta": meta, "points": PTS[:2] + PTS[3:], "probe": dict(probe, forms=FORMS[:2] + FORMS[3:]),
            "note": "reproduces seeded C01-b2 (kept:*), C03-b1 (sibling:*:not-derivative), C12-b1/C08-b1 (sibling:staged:*)"})
+    # C03: genuine defect C03-integer-dtype-state-overflow - fixed-width numpy integers wrap around inside the evaluators
+    ab2 = {"decl_states": ["V", "C"], "states": ["V", "C"], "params": ["alpha"], "derived": [], "lims": None, "odes": [],
+           "procs": [{"rate": mul(mul(v("alpha"), v("C")), v("C")), "kind": "mass",
+                      "transitions": [{"type": "T", "origin": "C", "dest": "V", "mag": n(3)}]}]}
+    spec2, meta2 = gen.make_spec(random.Random(1), ab2, routes=("event",))
+    write("C03", "integer-dtype-state-overflow",
+          {"spec": spec2, "meta": meta2,
+           "points": [{"V": "7/2", "C": "19/3", "alpha": "9/5", "t": "0"}, {"V": "12", "C": "5/2", "alpha": "11/7", "t": "1/2"},
+                      {"V": "3400", "C": "1900", "alpha": "9/5", "t": "1"}],
+           "probe": {"big": {"point": {"V": "340000", "C": "190000", "alpha": "9/5", "t": "2"}, "x": "ndarray_int64"},
+                     "forms": [{"x": "list", "t": "float", "p": "list"}, {"x": "ndarray", "t": "float", "p": "list"},
+                               {"x": "ndarray_int32", "t": "int", "p": "list"}],
+                     "reassign_form": "list", "sibling": None},
+           "note": "transitionVar = 36*C**4*alpha**3 wraps around for C=1900 as int32 and for C=190000 as int64 (the default integer dtype)"})
+    c = json.load(open(os.path.join(V, "corpus", "C03", "integer-dtype-state-overflow.json")))
+    c["probe"]["forms"][2]["x"] = "list_int"
+    c["note"] = "as above, only the population-scale probe (int64, the default integer dtype of numpy) shows it"
+    write("C03", "integer-dtype-state-overflow-int64-population", c)
     # C12
     ab = {k: ABSTRACT[k] for k in ("states", "params", "procs", "odes", "derived")}
     A = copy.deepcopy(spec)                                   # everything through the constructor, Event objects
